@@ -118,6 +118,7 @@ def ewidth(e):
   if k == "inv": return ewidth(e[1])
   if k in ("zext", "sext", "trunc"): return e[2]
   if k == "cat": return sum(ewidth(x) for x in e[1])
+  if k == "cast": return e[2]            # same-width BitsN( expr ) cast
   if k == "csl": return e[3] - e[2]     # slice [lo:hi] of a call result ( concat(..)[lo:hi], sext(..)[lo:hi] )
   if k == "ite": return ewidth(e[2]) if ewidth(e[2]) is not None else ewidth(e[3])
   raise KeyError(k)
@@ -129,7 +130,7 @@ def expr_refs(e, out):
   elif k in ("c", "fv", "lv"): pass
   elif k == "tv": out.append({"tmp": e[1]})
   elif k in ("bin", "cmp"): expr_refs(e[2], out); expr_refs(e[3], out)
-  elif k in ("inv", "zext", "sext", "trunc", "csl"): expr_refs(e[1], out)
+  elif k in ("inv", "zext", "sext", "trunc", "csl", "cast"): expr_refs(e[1], out)
   elif k == "red": expr_refs(e[2], out)
   elif k == "cat":
     for x in e[1]: expr_refs(x, out)
@@ -193,6 +194,7 @@ def subst_expr(e, env):
   if k == "inv": return [k, subst_expr(e[1], env)]
   if k in ("zext", "sext", "trunc"): return [k, subst_expr(e[1], env)] + list(e[2:])
   if k == "csl": return [k, subst_expr(e[1], env), e[2], e[3]]
+  if k == "cast": return [k, subst_expr(e[1], env), e[2]]
   if k == "red": return [k, e[1], subst_expr(e[2], env)]
   if k == "cat": return [k, [subst_expr(x, env) for x in e[1]]]
   if k == "ite": return [k, subst_expr(e[1], env), subst_expr(e[2], env), subst_expr(e[3], env)]
@@ -237,6 +239,7 @@ def expr_text(e):
     if len(e) > 3 and e[3] == "kw": return f"{k}(value={expr_text(e[1])}, new_width={e[2]})"        # keyword arguments
     return f"{k}({expr_text(e[1])}, {e[2]})"
   if k == "csl": return f"{expr_text(e[1])}[{e[2]}:{e[3]}]"
+  if k == "cast": return f"Bits{e[2]}({expr_text(e[1])[1:-1] if expr_text(e[1]).startswith('(') and expr_text(e[1]).endswith(')') else expr_text(e[1])})"
   if k == "cat": return "concat(" + ", ".join(expr_text(x) for x in e[1]) + ")"
   if k == "ite": return f"({expr_text(e[2])} if {expr_text(e[1])} else {expr_text(e[3])})"
   if k == "red": return f"reduce_{e[1]}({expr_text(e[2])})"
@@ -273,6 +276,7 @@ def ev(e, rd, env=None):
     return (a - (1 << w0) if a >> (w0 - 1) else a) & mask(e[2])
   if k == "trunc": return ev(e[1], rd, env) & mask(e[2])
   if k == "csl": return (ev(e[1], rd, env) >> e[2]) & mask(e[3] - e[2])
+  if k == "cast": return ev(e[1], rd, env) & mask(e[2])
   if k == "cat":
     r = 0
     for x in e[1]:
@@ -720,7 +724,10 @@ class Gen:
       if rng.random() < 0.3 and b[0] != "c": a, b = b, a
       if ewidth(a) is None and ewidth(b) is None: a = self.leaf(w, srcs)
       if may_be_int(a) and may_be_int(b): a = make_explicit(a, w)
-      return ["bin", op, a, b]
+      node = ["bin", op, a, b]
+      if self.k.get("p_cast") and w <= 64 and ewidth(a) == w and ewidth(b) == w and rng.random() < self.k["p_cast"]:
+        node = ["cast", node, w]           # BitsW( a op b ): a no-op cast whose operand is a compound expression
+      return node
     if r < 0.55:
       op = rng.choice(["shl", "shr"])
       a = self.expr(w, srcs, depth - 1)
